@@ -9,6 +9,17 @@ ROOT = pathlib.Path(__file__).resolve().parent.parent
 
 # id -> (technique, level text, level_note, design_ref)
 CHECKS = {
+    "C13": (
+        "fault injection: exactly one catalogued inconsistency is injected into a well-formed generated builder program at a chosen site and depth; oracle = the documented exception class at the faulty call (or at context exit / serialization)",
+        "3000 (quick) / 100000 (thorough) injected programs over 23 inconsistency kinds (foreign wires in plain and block builders, static ports "
+        "used as values, integer wire indices, non-function callees, disagreeing / out-of-range / repeated / unbuilt cases, mismatched exit "
+        "branches, declared-output mismatches, polymorphic calls without or with wrong instantiation, incomplete ops and containers at "
+        "serialization, untracked / out-of-range tracked indices), each kind >= 50 times at depths 0, 1 and >= 2. A run that completes and "
+        "serializes, or raises another class, is a violation.",
+        "Negative case indices not injected; inside a basic block only 'source outside the enclosing CFG' is injected (the Block builder "
+        "documents that relations inside a CFG are left to full validation); post-refusal HUGR state not judged.",
+        "DESIGN.md §3 C13",
+    ),
     "C15": (
         "differential: random scripts on the real TrackedDfg vs the same script replayed on a plain Dfg with a harness-side tracking model; per-step tracked-list equality; final HUGR equality",
         "5000 (quick) / 150000 (thorough) scripts over track_wire / track_wires / track_inputs / untrack_wire / add / extend / "
